@@ -5,6 +5,7 @@ package main
 // (logic QF_UFBV); quantified hypotheses are instantiated before printing.
 
 import (
+	"os"
 	"fmt"
 	"math/big"
 	"sort"
@@ -343,6 +344,8 @@ func Or(xs ...*Term) *Term {
 
 func Implies(a, b *Term) *Term { return Or(Not(a), b) }
 
+var noIteCollapse = os.Getenv("GOVC_NO_ITE_COLLAPSE") != ""
+
 func Ite(c, a, b *Term) *Term {
 	if a.sort != b.sort {
 		panic(fmt.Sprintf("ite sort mismatch %v %v", a.sort, b.sort))
@@ -387,7 +390,7 @@ func Ite(c, a, b *Term) *Term {
 	}
 	// ite(c, x, ite(d, x, y)) = ite(c or d, x, y): alternatives with the same value are one
 	// alternative (keeps the nesting of merged values shallow)
-	if a.sort != BoolSort {
+	if a.sort != BoolSort && !noIteCollapse {
 		if b.op == "ite" && b.args[1] == a {
 			return Ite(Or(c, b.args[0]), a, b.args[2])
 		}
